@@ -1200,7 +1200,7 @@ class Executor:
                 return [(st, v.length)]
             if attr == 'shape':
                 return [(st, (v.length,))]
-            if attr in ('sum', 'any', 'all', 'copy'):
+            if attr in ('sum', 'any', 'all', 'copy', 'max', 'min'):
                 return [(st, ('arrmethod', v, attr))]
         if isinstance(v, SBag) and attr in ('sum',):
             return [(st, ('arrmethod', v, attr))]
@@ -1256,7 +1256,8 @@ class Executor:
             if isinstance(k, SSlice):
                 return self.slice_seq(v, k, st)
             if isinstance(k, SSeq) and k.kind == 'bool':
-                raise Unsupported('boolean mask on SSeq')
+                from . import prims as _pr
+                return _pr.seq_filter(self, v, k, st)
             if is_intlike(k):
                 ki = num_term(k)
                 ci = concrete(ki)
